@@ -40,7 +40,11 @@ RULE = ('SuperLearner: cells loss {L2, nloglik} x discrete {no, yes} x 1..5 cand
         'already seen, like sklearn warm_start=True); every SuperLearner case is repeated with X / y (fit and predict) as lists '
         'and as pandas objects with default, shifted and permuted integer labels (int and float outcome dtype) and '
         'compared exactly with the ndarray run, the hold-out discipline being judged on the outcome values the '
-        'clones received; the stand-alone estimators get the same container variants.  StepwiseSL: cells direction x family {Gaussian, Binomial, Poisson} x '
+        'clones received; the stand-alone estimators get the same container variants; matched sets (2-4 levels, one '
+        'group-specific learner per level, a drawn subset of levels sharing the outcome) so that candidates are '
+        'EXACTLY tied for the largest weight or for a lower one, discrete and not; per case, independently drawn '
+        'options outside the statement (verbose, upper-case loss / solver, non-default bounds, summary() between fit '
+        'and predict).  StepwiseSL (verbose drawn per case): cells direction x family {Gaussian, Binomial, Poisson} x '
         'order_interaction 0..2 x 1..4 columns, a third with injected NaN AICs.  distinct = distinct (cell, n, data '
         'seed); non-trivial = n mod folds != 0 or >= 2 candidates (SL); search took >= 1 step (stepwise)')
 ASSUMPTIONS = ['sklearn KFold(k, shuffle=False) yields contiguous folds, the first n mod k of size n//k + 1 (measured '
@@ -480,6 +484,21 @@ def k_superlearner(chk, drv, case, out, X, y, Xq):
     if not np.all(raw >= 0):
         chk.discard('reference nnls returned a negative entry')
         return
+    # Weights equal up to rounding (candidates tied for the largest weight): the implementation selects on the
+    # NORMALISED float weights, and dividing by the float sum can turn a last-bit difference of the raw solution
+    # into an exact tie (measured: raw ...74p-1 < ...75p-1, both normalised to 0x1.0000000000002p-2), which the model,
+    # normalising in exact rationals, cannot reproduce from the raw solution.  The selection logic is then driven by
+    # the weights the implementation itself reports (est_performance['coefs'], exact rationals of the floats: the
+    # model must pick their first maximiser), and those weights are compared with the reference to 1e-9.
+    top = np.sort(raw)[::-1]
+    if case['discrete'] and m >= 2 and out['err'] is None and top[0] >= SQRT_EPS and \
+            top[0] - top[1] <= 1e-9 * top[0] and np.all(np.isfinite(out['perf_coefs'])):
+        thr_raw = np.where(raw < SQRT_EPS, 0.0, raw)
+        chk.k(bool(np.allclose(out['perf_coefs'], thr_raw / thr_raw.sum(), rtol=1e-9, atol=1e-12)),
+              'weights before the discrete selection: est_performance vs reference nnls',
+              dict(ctx, impl=out['perf_coefs'], reference=(thr_raw / thr_raw.sum()).tolist()))
+        raw = np.array(out['perf_coefs'], dtype=float)
+        chk.count('sl_k_selection_driven_by_reported_weights')
     rep, line = drv.ask('slfit', n=n, k=k, m=m, thr=rq(SQRT_EPS), raw=enc_list(raw, rq),
                         discrete=int(case['discrete']))
     if out['err'] is not None:
